@@ -54,7 +54,7 @@ fn filters(tier: Tier) -> Vec<(String, Vec<Vec<f64>>)> {
 
 pub fn run(tier: Tier) -> i32 {
     let rep = Report::new("C07", tier, "model_checking");
-    rep.set_rule("SCOPE: per (rate in {8k,16k,48k,96k}) x (frame period in {40,80,81,240,480}): all 512 frame triples over {unvoiced, F0 in {20,55.3,123.4,440,rate/2,10(clamps to 20),30k(clamps to 20k)} Hz} followed by the first two symbols in reverse order and 18 repetitions of the third; filters: none plus the listed odd-length low-pass sets (constant and changing per frame; incl. sets whose taps are exactly 0 or 1 at the centre or the ends); real Vocoder with zero spectrum; oracle: pulse height^2 = linearly gliding period, stationary spacing floor/ceil(T0), unit mean power, unvoiced samples bit-equal to the reference noise run (which is the same stream for frame periods 1, 40, 81, 162, 405 and 3240), LPF output = h*pulses + (delta-h)*noise; a slice longer than the frame period gives the same frame and is not written behind it (both filter families); log-F0 values far outside the range (2, 0, -5, the doubles next to the no-data marker, -2e10, -1e300, f64::MIN, -inf; 10, 700, 1e10, 1e300, f64::MAX, +inf) rendered bit-identically to the 20 Hz / 20 kHz limit itself; two vocoders (all pairs of 6 rate/period/low-pass configurations) stepped alternately on one thread produce what each produces alone; distinct = (cell, triple, filter); non-trivial = contains a voiced frame");
+    rep.set_rule("SCOPE: per (rate in {8k,16k,48k,96k}) x (frame period in {40,80,81,240,480}): all 512 frame triples over {unvoiced, F0 in {20,55.3,123.4,440,rate/2,10(clamps to 20),30k(clamps to 20k)} Hz} followed by the first two symbols in reverse order and 18 repetitions of the third; filters: none plus the listed odd-length low-pass sets (constant and changing per frame; incl. sets whose taps are exactly 0 or 1 at the centre or the ends); real Vocoder with zero spectrum; oracle: pulse height^2 = linearly gliding period, stationary spacing floor/ceil(T0), unit mean power, one vocoder's noise followed through 2^23 samples (thorough 4.6e8): finite, block statistics in range; unvoiced samples bit-equal to the reference noise run (which is the same stream for frame periods 1, 40, 81, 162, 405 and 3240), LPF output = h*pulses + (delta-h)*noise; a slice longer than the frame period gives the same frame and is not written behind it (both filter families); log-F0 values far outside the range (2, 0, -5, the doubles next to the no-data marker, -2e10, -1e300, f64::MIN, -inf; 10, 700, 1e10, 1e300, f64::MAX, +inf) rendered bit-identically to the 20 Hz / 20 kHz limit itself; two vocoders (all pairs of 6 rate/period/low-pass configurations) stepped alternately on one thread produce what each produces alone; distinct = (cell, triple, filter); non-trivial = contains a voiced frame");
     rep.assume("F0 values on the 7-point lattice; T0 is an exact integer for no lattice point (first inter-pulse interval after an onset is ceil(T0)-1 = floor(T0))");
     let rates = [8000usize, 16000, 48000, 96000];
     let fps = [40usize, 80, 81, 240, 480];
@@ -89,6 +89,61 @@ pub fn run(tier: Tier) -> i32 {
             }
         }
         rep.note(&format!("noise_worst_autocorrelation_{}", n), json!(worst_rho));
+    }
+    // a long stretch of the noise stream from ONE vocoder (its generator is never re-seeded): every sample finite, every block
+    // of 2^20 samples zero-mean / unit-variance / uncorrelated at lag 1 - 2^23 samples in the quick tier, 4.6e8 in the thorough
+    // tier (more than ten minutes of audio at 48 kHz times fifteen)
+    {
+        let total: usize = tier.pick(1usize << 23, 460_000_000);
+        let block = 1usize << 20;
+        let r = catch(|| {
+            let fp = 1usize << 16;
+            let mut v = Vocoder::new(3, 0, 0, false, 48000, 0.0, 0.0, 1.0, fp);
+            let mut buf = vec![0.0; fp];
+            let (mut done, mut worst_mean, mut worst_var, mut worst_rho) = (0usize, 0.0f64, 0.0f64, 0.0f64);
+            let (mut s1, mut s2, mut s11, mut nb, mut prev) = (0.0f64, 0.0f64, 0.0f64, 0usize, 0.0f64);
+            let mut first_bad: Option<usize> = None;
+            while done < total && first_bad.is_none() {
+                v.synthesize(NODATA, &[0.0, 0.0, 0.0], &[], &mut buf);
+                for (i, x) in buf.iter().enumerate() {
+                    if !x.is_finite() {
+                        first_bad = Some(done + i);
+                        break;
+                    }
+                    s1 += x;
+                    s2 += x * x;
+                    s11 += x * prev;
+                    prev = *x;
+                    nb += 1;
+                    if nb == block {
+                        let m = s1 / block as f64;
+                        let var = s2 / block as f64 - m * m;
+                        worst_mean = worst_mean.max(m.abs());
+                        worst_var = worst_var.max((var - 1.0).abs());
+                        worst_rho = worst_rho.max((s11 / block as f64 - m * m).abs() / var);
+                        s1 = 0.0;
+                        s2 = 0.0;
+                        s11 = 0.0;
+                        nb = 0;
+                    }
+                }
+                done += fp;
+            }
+            (done, first_bad, worst_mean, worst_var, worst_rho)
+        });
+        rep.eval(1);
+        match r {
+            Err(p) => rep.violation(format!("panic@{}", site_of(&p)), p, json!({"long_noise_run_samples": total})),
+            Ok((done, first_bad, wm, wv, wr)) => {
+                rep.cmp((done / block) as u64 * 3);
+                rep.note("long_noise_run", json!({"samples": done, "block": block, "worst_block_mean": wm, "worst_block_variance_error": wv, "worst_block_lag1_correlation": wr}));
+                if let Some(at) = first_bad {
+                    rep.violation("noise-not-finite", format!("sample {} of one vocoder's unvoiced excitation is not a finite number", at), json!({"long_noise_run_samples": total, "sample": at}));
+                } else if !(wm <= 6.0 / (block as f64).sqrt()) || !(wv <= 0.02) || !(wr <= 6.0 / (block as f64).sqrt()) {
+                    rep.violation("noise-stats-long", format!("a block of 2^20 unvoiced samples has mean {:.4} / variance error {:.4} / lag-1 correlation {:.4} (limits 0.0059, 0.02, 0.0059)", wm, wv, wr), json!({"long_noise_run_samples": total}));
+                }
+            }
+        }
     }
     // the noise is one stream: how it is cut into frames must not matter (same samples for frame periods 40, 81, 162,
     // 3240 and one single long frame)
